@@ -223,9 +223,56 @@ def _risk(cell, stats):
     notes = []
     if st['open']:
         st['open'] = 0
+        before_inc = ex.stats.inconclusive
         run("exact")
         notes.append(f"exact stage used for risk {nnm.method_id(cell['method'])} N={cell['N']} {cell['ut']}")
+        if ex.stats.inconclusive > before_inc and not findings:
+            # the exact query is undecided: look for a concrete witness on the real code (the replay is the arbiter of any alarm);
+            # samples are drawn on a small lattice around the abstract counterexample's parameters
+            w = _concrete_search(cell)
+            if w is not None:
+                findings.append(w)
+                ex.stats.inconclusive = before_inc
     return findings, samples, st, notes
+
+
+def _concrete_search(cell, budget=1500):
+    import random
+    import numpy as np
+    rnd = random.Random(1234)
+    n, extra = cell["n"], cell["extra"]
+    u, t = (float(v) for v in nnm.UT[cell["ut"]])
+    test, kind, rule = cell["method"]
+    for trial in range(budget):
+        x = [rnd.choice((0.0, u / 4, u / 2, 3 * u / 4, u, round(rnd.uniform(0, u), 3))) for _ in range(n + extra)]
+        inp = {"x": [str(F(v)) for v in x]}
+        if test in ("alpha_mart", "wald_sprt") and rule in (None, "fixed_alternative_mean", "shrink_trunc"):
+            inp["eta"] = str(F(rnd.choice((0.51, 0.6, 0.75, 0.9)) * u if u <= 1 else rnd.uniform(t + 0.01, u - 0.001)).limit_denominator(10 ** 6))
+        if rule == "shrink_trunc":
+            inp.update(c=str(F(rnd.choice((0.1, 0.5, 1.0))).limit_denominator(100)), minsd=str(F(rnd.choice((0.001, 0.1))).limit_denominator(1000)))
+            if "f" not in cell.get("fixed", {}):
+                inp["f"] = str(F(rnd.choice((0.0, 0.05, 0.5, 2.0))).limit_denominator(100))
+            if "d" not in cell.get("fixed", {}):
+                inp["d"] = str(rnd.choice((1, 10, 100)))
+        if rule == "optimal_comparison":
+            inp["rate_error_2"] = str(F(rnd.choice((0.0, 1e-4, 0.01))).limit_denominator(10 ** 6))
+        if rule == "fixed_bet":
+            inp["lam"] = str(F(rnd.uniform(0, 1 / u)).limit_denominator(1000))
+        if rule == "agrapa":
+            inp.update(lam=str(F(rnd.choice((0.1, 0.5, 1.0, 2.0))).limit_denominator(10)), c_grapa_0=str(F(rnd.choice((0.5, 0.9))).limit_denominator(10)),
+                       c_grapa_max=str(F(95, 100)), c_grapa_grow=str(rnd.choice((0, 1))))
+        if test in ("kaplan_kolmogorov", "kaplan_markov", "kaplan_wald"):
+            inp["g"] = str(F(rnd.choice((0.0, 0.1, 0.5))).limit_denominator(10))
+        f = dict(clause=f"measured risk after {n + extra} observations exceeds the risk after the first {n} (concrete witness after an undecided query)",
+                 cell=cell, inputs=inp)
+        try:
+            rp = replay(f)
+        except Exception:      # noqa
+            continue
+        if rp["reproduced"] and "raised" not in rp["detail"]:
+            f["replay"] = rp
+            return f
+    return None
 
 
 def _proved(cell, stats):
